@@ -28,6 +28,7 @@ type OrderInfo struct {
 	HadMeta      bool
 	Timeout      uint64
 	StoreTxSigner string
+	ExcessAtStore map[string]int64 // per provider: used capacity beyond its stored shards just before the order was created
 }
 
 type metaCopy struct {
@@ -143,6 +144,12 @@ func (trackOracle) Step(e *Env, si *StepInfo) {
 				}
 			}
 			oi.PreMeta, oi.HadMeta = copyMeta(e, prev, o.DataId)
+			oi.ExcessAtStore = map[string]int64{}
+			for _, sid := range o.Shards {
+				if sh, ok := cur.Order.Shards[sid]; ok {
+					oi.ExcessAtStore[sh.Sp] = usedExcess(prev, sh.Sp)
+				}
+			}
 			t.Orders[id] = oi
 		}
 		// shard bookkeeping
@@ -255,3 +262,20 @@ func decodeTxResp(data []byte, out interface{ Unmarshal([]byte) error }) bool {
 func fmtAddr(s string) string { return short(strings.TrimPrefix(s, "sao1")) }
 
 var _ = fmt.Sprintf
+
+
+// usedExcess: the provider's reported used capacity minus the total size of the shards it has
+// stored (completed) - capacity "reserved" for something that is not stored.
+func usedExcess(s *Snap, sp string) int64 {
+	pl, ok := s.Node.Pledges[sp]
+	if !ok {
+		return 0
+	}
+	var stored int64
+	for _, sh := range s.Order.Shards {
+		if sh.Sp == sp && sh.Status == ordertypes.ShardCompleted {
+			stored += int64(sh.Size_)
+		}
+	}
+	return pl.UsedStorage - stored
+}
